@@ -388,8 +388,8 @@ def gen_mutations(c, order, t, r, s, rng, tier):
         strong = nm in ("0", "n")
         pub("r=" + nm, h, E(v), sb, tgt=None if strong else ext)
         pub("s=" + nm, h, rb, E(v), tgt=None if strong else ext)
-        priv("r=" + nm, h, E(v), sb, tgt=ext)
-        priv("s=" + nm, h, rb, E(v), tgt=ext)
+        priv("r=" + nm, h, E(v), sb, tgt=None if nm == "0" else ext)
+        priv("s=" + nm, h, rb, E(v), tgt=None if nm == "0" else ext)
     pub("r+n", h, E(r + n), sb)      # encodable only where 2n < 2^(8*bytes): cofactor curves, 255-bit n
     pub("s+n", h, rb, E(s + n))
     priv("r+n", h, E(r + n), sb, tgt=ext)
@@ -398,8 +398,8 @@ def gen_mutations(c, order, t, r, s, rng, tier):
     pub("r=n-r", h, E(n - r), sb, tgt=ext)
     pub("swap-rs", h, sb, rb)
     priv("swap-rs", h, sb, rb, tgt=ext)
-    pub("r0-s1", h, E(0), E(1), tgt=ext)
-    priv("r0-s1", h, E(0), E(1), tgt=ext)
+    pub("r0-s1", h, E(0), E(1))
+    priv("r0-s1", h, E(0), E(1))
     # wrong keys
     d2 = d + 1 if d + 1 < n else d - 1
     if d2 >= 1:
@@ -412,7 +412,7 @@ def gen_mutations(c, order, t, r, s, rng, tier):
     pub("key-neg", h, rb, sb, e3[0], e3[1])
     priv("key-neg", h, rb, sb, enc_int(n - d, nb, order), tgt=ext)
     pub("key-O", h, rb, sb, b"\x00", None)
-    priv("key-0", h, rb, sb, b"\x00" * nb, tgt=ext)
+    priv("key-0", h, rb, sb, b"\x00" * nb)
     priv("key-n", h, rb, sb, enc_int(n, nb, order), tgt=ext)
     priv("key-max", h, rb, sb, b"\xff" * nb, tgt=ext)
     # forged for the neutral element: any (r, s) with r = x(u1*G) passes the bare equation
@@ -719,7 +719,16 @@ def work_curve(job):
                 continue
             # label by cause: does the known non-standard hash handling explain the verdict?
             what = "accepts-invalid" if acc else "rejects-valid"
-            key = "oracle:%s:%s:%s" % (ent, what, kind_class(kind))
+            ri, si = int.from_bytes(f[1], order), int.from_bytes(f[2], order)
+            det = kind_class(kind)
+            if acc:     # name the accepted tuple by what makes it invalid, not by the mutation that built it
+                if ri == 0 or si == 0:
+                    det = "r-or-s-zero"
+                elif ri >= c.n or si >= c.n:
+                    det = "r-or-s-above-range"
+                elif (op == "pub" and ref.point(f[3], f[4]) == "O") or (op == "priv" and int.from_bytes(f[3], order) == 0):
+                    det = "neutral-key"
+            key = "oracle:%s:%s:%s" % (ent, what, det)
             if hc is not None:
                 model = ref.pub(*f, e=e_lib) if op == "pub" else ref.priv(*f, e=e_lib)
                 if model == acc:
@@ -804,7 +813,7 @@ def honesty_natural(part, c, ci, vname, vm, exe, rng):
         if want is None:
             continue
         if acc and not want:
-            rcls = "r-zero" if r_ == 0 else "s-zero" if s_ == 0 else "r-s-range" if (r_ >= n or s_ >= n) else kind.split(":")[0]
+            rcls = "r-or-s-zero" if (r_ == 0 or s_ == 0) else "r-or-s-above-range" if (r_ >= n or s_ >= n) else kind.split(":")[0]
             _viol(part, "oracle:%s:accepts-invalid:%s" % (ent, rcls), vname, vm, cs, {"accept": False},
                   {"accept": True, "rc": 0}, "curve %s: bn-level verifier accepted e=%x r=%x s=%x with key object '%s'" % (
                       c.name, e, r_, s_, kind))
@@ -901,7 +910,7 @@ def honesty_faults(part, c, ci, oname, order, le, vname, vm, exe, rng, tier):
                   "curve %s: status %d/%d forced to EOVERFLOW in %s(); signer returned 0 with a wrong signature" % (
                       c.name, p, N, ob.func), {"fault_k": p, "fault_func": ob.func})
         else:
-            _viol(part, "fault:%s:success-after-internal-failure:%s" % (ent, tcls), vname, vm, cs,
+            _viol(part, "fault:%s:success-after-internal-failure" % ent, vname, vm, cs,
                   {"rc": "non-zero"}, {"rc": 0},
                   "curve %s plan %s: status %d/%d forced to EOVERFLOW in %s(); verifier still returned 0" % (
                       c.name, name, p, N, ob.func), {"fault_k": p, "fault_func": ob.func})
